@@ -16,6 +16,9 @@
 (*   "impliesPolarity"  premise visited with the implication's polarity    *)
 (*   "riseNoPrev"       rise / fall pass I to the operand unchanged        *)
 (*   "firstInterval"    bounded operators use only the first run of I      *)
+(*   "predicateKeepsPolarity"  the operands of a comparison / arithmetic   *)
+(*                      operator are visited with the polarity of the      *)
+(*                      comparison                                         *)
 (***************************************************************************)
 EXTENDS Sem
 
@@ -32,6 +35,12 @@ FirstRun(I) == IF I = {} THEN {} ELSE LET b == MinOf(I) IN {k \in I : \A j \in b
 
 ExplainOK(p) == ~HasOp(p, {"until", "since", "untilT", "sinceT", "precT", "unless", "unlessT"})
 
+\* Polarity of a visit: "sat" (explain why the sub-formula holds on I), "unsat" (why it is violated) or "none": below a
+\* comparison or an arithmetic operator a sub-formula is a number, there is no polarity to follow, and the variant of the
+\* operator's explanation that covers its whole window is used (Whole: TRUE if that is the "sat" variant).
+Holds(flag, wholeWhenSat) == IF flag = "none" THEN wholeWhenSat ELSE flag = "sat"
+Opp(flag) == CASE flag = "sat" -> "unsat" [] flag = "unsat" -> "sat" [] OTHER -> "none"
+
 RECURSIVE Ex(_, _, _, _, _, _, _, _)
 Ex(p, I, flag, W, N, S, M, Dev) ==
   LET Rl == Sig(p.l, W, N, S, M)
@@ -39,55 +48,62 @@ Ex(p, I, flag, W, N, S, M, Dev) ==
       Ng(Rq) == {k \in 1..N : Rq[k] < 0}
       L(J, f) == Ex(p.l, J, f, W, N, S, M, Dev)
       Rr(J, f) == Ex(p.r, J, f, W, N, S, M, Dev)
+      below == IF "predicateKeepsPolarity" \in Dev THEN flag ELSE "none"
       I1 == IF "firstInterval" \in Dev THEN FirstRun(I) ELSE I IN
   IF p.op = "var" THEN {<<p.v, k>> : k \in I}
   ELSE IF p.op = "const" THEN {}
-  ELSE IF p.op \in {"abs", "neg", "sqrt", "exp", "ln"} THEN L(I, flag)
-  ELSE IF p.op \in {"pred", "add", "sub", "mul", "div", "pow", "log", "iff", "xor"} THEN L(I, flag) \cup Rr(I, flag)
-  ELSE IF p.op = "not" THEN L(I, ~flag)
+  ELSE IF p.op \in {"abs", "sqrt", "exp"} THEN L(I, below)
+  ELSE IF p.op \in {"neg", "ln"} THEN L(I, flag)                          \* (no visitor of their own: the arguments pass through)
+  ELSE IF p.op \in {"pred", "add", "sub", "mul", "div", "pow"} THEN L(I, below) \cup Rr(I, below)
+  ELSE IF p.op \in {"log", "iff", "xor"} THEN L(I, flag) \cup Rr(I, flag)
+  ELSE IF p.op = "not" THEN L(I, Opp(flag))
   ELSE IF p.op = "and" THEN
-    (IF flag THEN L(I, flag) \cup Rr(I, flag)
+    (IF Holds(flag, TRUE) THEN L(I, flag) \cup Rr(I, flag)
      ELSE L(I \cap Ng(Rl), flag) \cup Rr(I \cap Ng(Sig(p.r, W, N, S, M)), flag))
   ELSE IF p.op = "or" THEN
-    (IF flag THEN L(I \cap Pos(Rl), flag) \cup Rr(I \cap Pos(Sig(p.r, W, N, S, M)), flag)
+    (IF Holds(flag, FALSE) THEN L(I \cap Pos(Rl), flag) \cup Rr(I \cap Pos(Sig(p.r, W, N, S, M)), flag)
      ELSE L(I, flag) \cup Rr(I, flag))
   ELSE IF p.op = "implies" THEN
-    LET pf == IF "impliesPolarity" \in Dev THEN flag ELSE ~flag IN
-    (IF flag THEN L(I \cap Ng(Rl), pf) \cup Rr(I \cap Pos(Sig(p.r, W, N, S, M)), flag)
+    LET pf == IF "impliesPolarity" \in Dev THEN flag ELSE Opp(flag) IN
+    (IF Holds(flag, FALSE) THEN L(I \cap Ng(Rl), pf) \cup Rr(I \cap Pos(Sig(p.r, W, N, S, M)), flag)
      ELSE L(I, pf) \cup Rr(I, flag))
   ELSE IF I = {} THEN {}
-  ELSE IF p.op = "ev" THEN (IF flag THEN L({k \in MinOf(I)..N : Rl[k] >= 0}, flag) ELSE L(MinOf(I)..N, flag))
-  ELSE IF p.op = "alw" THEN (IF flag THEN L(MinOf(I)..N, flag) ELSE L({k \in MinOf(I)..N : Rl[k] < 0}, flag))
-  ELSE IF p.op = "once" THEN (IF flag THEN L({k \in 1..MaxOf(I) : Rl[k] >= 0}, flag) ELSE L(1..MaxOf(I), flag))
-  ELSE IF p.op = "hist" THEN (IF flag THEN L(1..MaxOf(I), flag) ELSE L({k \in 1..MaxOf(I) : Rl[k] < 0}, flag))
+  ELSE IF p.op = "ev" THEN (IF Holds(flag, FALSE) THEN L({k \in MinOf(I)..N : Rl[k] >= 0}, flag) ELSE L(MinOf(I)..N, flag))
+  ELSE IF p.op = "alw" THEN (IF Holds(flag, TRUE) THEN L(MinOf(I)..N, flag) ELSE L({k \in MinOf(I)..N : Rl[k] < 0}, flag))
+  ELSE IF p.op = "once" THEN (IF Holds(flag, FALSE) THEN L({k \in 1..MaxOf(I) : Rl[k] >= 0}, flag) ELSE L(1..MaxOf(I), flag))
+  ELSE IF p.op = "hist" THEN (IF Holds(flag, TRUE) THEN L(1..MaxOf(I), flag) ELSE L({k \in 1..MaxOf(I) : Rl[k] < 0}, flag))
   ELSE IF p.op \in {"next", "snext"} THEN L(Shift(I, 1, N), flag)
   ELSE IF p.op \in {"prev", "sprev"} THEN L(Shift(I, -1, N), flag)
   ELSE IF p.op = "rise" THEN
     (IF "riseNoPrev" \in Dev THEN L(I, flag)
-     ELSE IF flag THEN L(I, TRUE) \cup L(Shift(I, -1, N), FALSE)
-     ELSE L({k \in I : Rl[k] < 0}, FALSE) \cup L(Shift({k \in I : Rl[k] >= 0}, -1, N), TRUE))
+     ELSE IF Holds(flag, TRUE) THEN L(I, flag) \cup L(Shift(I, -1, N), Opp(flag))
+     ELSE L({k \in I : Rl[k] < 0}, flag) \cup L(Shift({k \in I : Rl[k] >= 0}, -1, N), Opp(flag)))
   ELSE IF p.op = "fall" THEN
     (IF "riseNoPrev" \in Dev THEN L(I, flag)
-     ELSE IF flag THEN L(I, FALSE) \cup L(Shift(I, -1, N), TRUE)
-     ELSE L({k \in I : Rl[k] > 0}, TRUE) \cup L(Shift({k \in I : Rl[k] <= 0}, -1, N), FALSE))
+     ELSE IF Holds(flag, TRUE) THEN L(I, Opp(flag)) \cup L(Shift(I, -1, N), flag)
+     ELSE L({k \in I : Rl[k] > 0}, Opp(flag)) \cup L(Shift({k \in I : Rl[k] <= 0}, -1, N), flag))
   ELSE IF p.op = "evT" THEN
-    (IF flag THEN L(FutWinE(I1, p.a, p.b, N) \cap Pos(Rl), flag) ELSE L(FutWinE(I1, p.a, p.b, N), flag))
+    (IF Holds(flag, FALSE) THEN L(FutWinE(I1, p.a, p.b, N) \cap Pos(Rl), flag) ELSE L(FutWinE(I1, p.a, p.b, N), flag))
   ELSE IF p.op = "alwT" THEN
-    (IF flag THEN L(FutWinE(I1, p.a, p.b, N), flag) ELSE L(FutWinE(I1, p.a, p.b, N) \cap Ng(Rl), flag))
+    (IF Holds(flag, TRUE) THEN L(FutWinE(I1, p.a, p.b, N), flag) ELSE L(FutWinE(I1, p.a, p.b, N) \cap Ng(Rl), flag))
   ELSE IF p.op = "onceT" THEN
-    (IF flag THEN L(PastWinE(I1, p.a, p.b) \cap Pos(Rl), flag) ELSE L(PastWinE(I1, p.a, p.b), flag))
+    (IF Holds(flag, FALSE) THEN L(PastWinE(I1, p.a, p.b) \cap Pos(Rl), flag) ELSE L(PastWinE(I1, p.a, p.b), flag))
   ELSE IF p.op = "histT" THEN
-    (IF flag THEN L(PastWinE(I1, p.a, p.b), flag) ELSE L(PastWinE(I1, p.a, p.b) \cap Ng(Rl), flag))
+    (IF Holds(flag, TRUE) THEN L(PastWinE(I1, p.a, p.b), flag) ELSE L(PastWinE(I1, p.a, p.b) \cap Ng(Rl), flag))
   ELSE {}
 
 \* explain(): only a specification violated at time 0 (negative robustness) is explained
 Explanation(p, W, N, S, M, Dev) ==
-  IF Sig(p, W, N, S, M)[1] < 0 THEN Ex(p, {1}, FALSE, W, N, S, M, Dev) ELSE {}
+  IF Sig(p, W, N, S, M)[1] < 0 THEN Ex(p, {1}, "unsat", W, N, S, M, Dev) ELSE {}
 ReportedFor(E, v) == {pr[2] : pr \in {q \in E : q[1] = v}}
 
 \* property C20: the reported positions are a sufficient cause - every trace X (over the value set Vs) that agrees with W
 \* on them still violates the specification at time 0
+\* "X satisfies p at time 0": the Boolean semantics where it applies (predicates over arithmetic terms); where a predicate
+\* compares the value of a temporal / Boolean sub-formula, a strictly positive robustness (definitely satisfied)
+SatisfiedAt0(p, X, N, S, M) ==
+  IF SatUndef(p, X, N, S) THEN (LET r == Sig(p, X, N, S, M)[1] IN r # Undef /\ r > 0) ELSE Sat(p, X, N, S)[1]
 SufficientCause(p, W, N, S, M, E, vs, Vs) ==
   \A X \in [vs -> [1..N -> Vs]] :
-    (\A v \in vs : \A k \in ReportedFor(E, v) : X[v][k] = W[v][k]) => ~Sat(p, X, N, S)[1]
+    (\A v \in vs : \A k \in ReportedFor(E, v) : X[v][k] = W[v][k]) => ~SatisfiedAt0(p, X, N, S, M)
 =============================================================================
